@@ -8,16 +8,21 @@ import Anonymongo.Model.Walk
 namespace Anonymongo
 
 def qKeysObj : List Str := ["query", "filter", "sort", "q"].map String.toList
-def uKeysObjOrArr : List Str := ["update", "u"].map String.toList
+def uKeysObjOrArr : List Str := ["update", "u", "updateMods"].map String.toList
 def aKeysArr : List Str := ["updates", "deletes", "arrayFilters"].map String.toList
 def sDocuments : Str := "documents".toList
 def sInsert : Str := "insert".toList
 def sPipeline : Str := "pipeline".toList
+def sDocument : Str := "document".toList
+def sExplain : Str := "explain".toList
+def sBulkWrite : Str := "bulkWrite".toList
+def sOps : Str := "ops".toList
+def sNsInfo : Str := "nsInfo".toList
 
 namespace Ctx
 
-/-- `redactCommand`'s dispatch for one entry `k : v` of a command document;
-    `hasInsert` = the command has an `insert` key. -/
+/-- `redactOperation`'s dispatch for one entry `k : v` of an operation document;
+    `hasInsert` = the document has an `insert` key. -/
 def cmdVal (c : Ctx) (hasInsert : Bool) (k : Str) (v : J) : J :=
   if qKeysObj.contains k then
     match v with
@@ -36,21 +41,67 @@ def cmdVal (c : Ctx) (hasInsert : Bool) (k : Str) (v : J) : J :=
     match v with
     | .arr xs => if hasInsert then .arr (A c false [] false [] xs) else v
     | _ => v
+  else if k = sDocument then
+    match v with
+    | .obj kvs => if hasInsert then .obj (fromPairs (Q c false none [] kvs)) else v
+    | _ => v
   else if k = sPipeline then
     match v with
     | .arr xs => .arr (FacetStages c xs)    -- each stage: P(stage, rfn, [], isInSearchStage stage)
     | _ => v
   else v
 
-def redactCommand (c : Ctx) (cmd : List (Str × J)) : List (Str × J) :=
+/-- `redactOperation`: one operation document (a command, the command wrapped by explain, one
+    element of bulkWrite's `ops`) -/
+def redactOperation (c : Ctx) (cmd : List (Str × J)) : List (Str × J) :=
   let hasInsert := (lookup sInsert cmd).isSome
   cmd.map fun p => (p.1, c.cmdVal hasInsert p.1 p.2)
 
-/-- value of field `k` after `redactNamespace`: string values of the searched fields become pseudonyms -/
-def nsVal (c : Ctx) (k : Str) (v : J) : J :=
+/-- an operation document one level down (`Set` in place = rebuild, keys being distinct) -/
+def opDoc (c : Ctx) (v : J) : J :=
+  match v with
+  | .obj op => .obj (fromPairs (c.redactOperation op))
+  | _ => v
+
+/-- `redactCommand`'s treatment of one entry: the operation's own keys, the operation wrapped by
+    `explain`, the operations listed under `ops` by `bulkWrite` -/
+def cmdEntry (c : Ctx) (hasInsert hasBulk : Bool) (k : Str) (v : J) : J :=
+  if k = sExplain then c.opDoc v
+  else if k = sOps && hasBulk then
+    match v with
+    | .arr xs => .arr (xs.map c.opDoc)
+    | _ => v
+  else c.cmdVal hasInsert k v
+
+def redactCommand (c : Ctx) (cmd : List (Str × J)) : List (Str × J) :=
+  let hasInsert := (lookup sInsert cmd).isSome
+  let hasBulk := (lookup sBulkWrite cmd).isSome
+  cmd.map fun p => (p.1, c.cmdEntry hasInsert hasBulk p.1 p.2)
+
+/-- value of field `k` after `redactNamespaceFields`: string values of the searched fields become pseudonyms -/
+def nsFieldVal (c : Ctx) (k : Str) (v : J) : J :=
   match v with
   | .str s => if c.T.searchedFields.contains k then .str (c.H s) else v
   | _ => v
+
+/-- `redactNamespaceFields` -/
+def nsFields (c : Ctx) (cmd : List (Str × J)) : List (Str × J) :=
+  cmd.map fun p => (p.1, c.nsFieldVal p.1 p.2)
+
+def nsDocOf (c : Ctx) (v : J) : J :=
+  match v with
+  | .obj m => .obj (c.nsFields m)
+  | _ => v
+
+/-- value of field `k` after `redactNamespace`: the searched fields, those of the command wrapped by
+    `explain`, and those of the elements of `nsInfo` -/
+def nsVal (c : Ctx) (k : Str) (v : J) : J :=
+  if k = sExplain then c.nsDocOf v
+  else if k = sNsInfo then
+    match v with
+    | .arr xs => .arr (xs.map c.nsDocOf)
+    | _ => v
+  else c.nsFieldVal k v
 
 /-- `redactNamespace` -/
 def redactNamespace (c : Ctx) (cmd : List (Str × J)) : List (Str × J) :=
